@@ -95,6 +95,8 @@ def intrinsics(C, extract_fn, into_fn, from_py, from_core):
                 return ok(A.Sym("f64:approx(%d)" % v, rank=None, ty="f64", props={"fclass": "finite", "from_int": v}))
             return err("not a float")
         if tgt == "alloc::string::String":
+            if o.kind == "str" and str(o.v).startswith("sur:"):
+                return err("UnicodeEncodeError")       # a str with a lone surrogate has no UTF-8 form: extract::<String> fails
             return ok(A.Sym("str:%s" % o.v, rank=None, ty="str", props={"id": o.v})) if o.kind == "str" else err("not a str")
         if tgt == PY:
             return ip.call_fn(extract_fn, [o])
@@ -105,7 +107,24 @@ def intrinsics(C, extract_fn, into_fn, from_py, from_core):
         tgt = target_of(ip, n)
         if "PyList" in tgt:
             return ok(o) if isinstance(o, PyObj) and o.kind == "list" else err("not a list")
+        if "PyString" in tgt:
+            return ok(o) if isinstance(o, PyObj) and o.kind == "str" else err("not a str")
         raise A.Unsupported("cast::<%s>" % tgt)
+
+    def py_to_str(ip, n, a):
+        o = d(a[0])
+        if isinstance(o, PyObj) and o.kind == "str":
+            if str(o.v).startswith("sur:"):
+                return err("UnicodeEncodeError")
+            return ok(A.Sym("str:%s" % o.v, rank=None, ty="str", props={"id": o.v}))
+        return ok("<repr>")
+
+    def py_to_string_lossy(ip, n, a):
+        o = d(a[0])
+        if not (isinstance(o, PyObj) and o.kind == "str"):
+            raise A.Unsupported("to_string_lossy on %r" % (o,))
+        ident = "lossy(%s)" % o.v if str(o.v).startswith("sur:") else o.v      # U+FFFD replaces what has no UTF-8 form
+        return A.Sym("str:%s" % ident, rank=None, ty="str", props={"id": ident})
 
     I["pyo3::instance::Borrowed::<'a, 'py, T>::extract"] = py_extract
     I["pyo3::types::any::PyAnyMethods::extract"] = py_extract
@@ -123,7 +142,10 @@ def intrinsics(C, extract_fn, into_fn, from_py, from_core):
     I["pyo3::exceptions::PyValueError::new_err"] = lambda ip, n, a: PyErrV("ValueError")
     I["pyo3::types::any::PyAnyMethods::repr"] = lambda ip, n, a: ok(A.Sym("repr"))
     I["pyo3::types::any::PyAnyMethods::get_type"] = lambda ip, n, a: A.Sym("type")
-    I["pyo3::types::string::PyStringMethods::to_str"] = lambda ip, n, a: ok("<repr>")
+    I["pyo3::types::string::PyStringMethods::to_str"] = py_to_str
+    I["pyo3::types::string::PyStringMethods::to_string_lossy"] = py_to_string_lossy
+    I["pyo3::types::string::PyStringMethods::to_cow"] = py_to_str
+    I["alloc::borrow::Cow::<'_, B>::into_owned"] = lambda ip, n, a: d(a[0])
     I["core::result::Result::<T, E>::as_ref"] = lambda ip, n, a: d(a[0])
     I["core::result::Result::<T, E>::unwrap_or"] = lambda ip, n, a: d(a[0]).fields[0] if d(a[0]).variant == "Ok" else a[1]
     I["core::fmt::rt::Argument::<'_>::new_display"] = lambda ip, n, a: "<display>"
@@ -201,6 +223,8 @@ def py_objects():
         ("float +inf", PyObj("float", "inf"), {"Err"}),
         ("float -inf", PyObj("float", "-inf"), {"Err"}),
         ("str", PyObj("str", "s1"), {"String:s1"}),
+        # a str holding a lone surrogate (os.fsdecode of a non-UTF-8 file name) has no Rust String: refuse it, never rewrite it
+        ("str with a lone surrogate", PyObj("str", "sur:s2"), {"Err"}),
         ("object", PyObj("other", "dict"), {"Err"}),
     ]
     L = lambda *xs: PyObj("list", list(xs))
